@@ -96,6 +96,10 @@ class RecSpan(Span):
     def name(self):
         return self._name
 
+    def __len__(self):
+        # a span object may define __len__ (its attributes so far): an "empty" span is a span all the same
+        return 0 if getattr(self.proc, 'falsy', False) else 1
+
     @property
     def trace_id(self):
         return 't'
